@@ -176,5 +176,41 @@ decreasing_by
 def dijkstra (cf : CF) (s : Snap) : Table :=
   loop cf s [] (cands cf s [] (fun n => (Node.appOcc n).isEmpty))
 
+/-! ### `Extractor::extract` at the level of costs: which e-node is taken for a class, and the tree that results
+
+The implementation stores, next to a class's cost, the e-node that attained it, and `extract` rebuilds the term from these
+e-nodes recursively.  Here the e-node is recovered from the table (the first e-node of the class whose cost over the
+children's entries is the class's entry — any such node gives the same cost); slot names are not modelled. -/
+
+/-- index of the e-node `extract` takes for class `c` -/
+def bestIdx (cf : CF) (s : Snap) (t : Table) (c : Nat) : Option Nat :=
+  match s.cls c, t.get c with
+  | some cl, some k =>
+    let i := cl.nodes.findIdx fun e => (kidCosts t e.1).map (nodeCost cf e.1.v) == some k
+    if i < cl.nodes.length then some i else none
+  | _, _ => none
+
+inductive XT where
+  | mk (cls : Nat) (node : Nat) (kids : List XT)
+
+mutual
+/-- `extract`, with fuel (the cost of the class suffices: children are strictly cheaper) -/
+def extractTree (cf : CF) (s : Snap) (t : Table) : Nat → Nat → Option XT
+  | 0, _ => none
+  | fuel + 1, c =>
+    match bestIdx cf s t c with
+    | none => none
+    | some i =>
+      match (s.cls c).bind (fun cl => cl.nodes[i]?) with
+      | none => none
+      | some e => (extractKids cf s t fuel ((Node.appOcc e.1).map (·.id))).map (XT.mk c i)
+def extractKids (cf : CF) (s : Snap) (t : Table) : Nat → List Nat → Option (List XT)
+  | _, [] => some []
+  | fuel, c :: cs =>
+    match extractTree cf s t fuel c, extractKids cf s t fuel cs with
+    | some T, some Ts => some (T :: Ts)
+    | _, _ => none
+end
+
 end Extract
 end SV
